@@ -360,9 +360,19 @@ def activate_domain_and_interventions(
     if isinstance(expression, Probability):
         if not isinstance(expression, PopulationProbability):
             raise TypeError
+        distribution = Distribution.safe(set(expression.children) - interventions)
+        # a conditional probability stays conditional on the same variables, except for the
+        # transport nodes, which are accounted for by annotating the probability with the domain
+        parents = {
+            parent
+            for parent in expression.parents
+            if parent not in interventions and not is_transport_node(parent)
+        }
+        if parents:
+            distribution = distribution.given(parents)
         return PopulationProbability(
             population=domain,
-            distribution=Distribution.safe(set(expression.children) - interventions),
+            distribution=distribution,
         ).intervene(interventions)
     if isinstance(expression, Sum):
         # TODO need full integration test to trso() function that covers this branch
